@@ -235,6 +235,13 @@ def child_main(world, proc, args, stdin, stdout):
         code = e.code
         proc.exit(code if isinstance(code, int) else (0 if code is None else 1))
         s.switch("exit", "")
+    else:
+        # the interpreter's shutdown may take its time: a non-daemon thread of the remote program still running, a
+        # blocking atexit handler ("linger" op) - the connection is closed by then, the process is not gone
+        linger = getattr(proc, "linger", 0)
+        if linger:
+            s.probe("worker-lingers-after-serve")
+            s.sleep(linger, "linger")
     # normal return => process exits with 0 (kernel calls main_returned)
 
 
